@@ -72,7 +72,12 @@ func menu(thorough bool) []authsrv.Fault {
 
 // followUps: what a server may still send on the connection after the client abandoned the exchange. Nothing
 // of it may make the client store a session or send an encrypted frame.
-var followUpNames = []string{"none", "plain new_session_created", "plain bad_server_salt", "encrypted new_session_created under the abandoned key", "plain dh_gen_ok again"}
+var followUpNames = []string{"none", "plain new_session_created", "plain bad_server_salt", "encrypted new_session_created under the abandoned key", "plain dh_gen_ok again", retryName}
+
+// the application tries again on the same client object (Disconnect, CreateConnection): whatever the abandoned
+// exchange left in the object, the second attempt is a key exchange of its own - abandoned like the first when
+// the server's replies are inconsistent again
+const retryName = "CreateConnection again on the same client"
 
 func le64(v uint64) []byte { return binary.LittleEndian.AppendUint64(nil, v) }
 func le32(v uint32) []byte { return binary.LittleEndian.AppendUint32(nil, v) }
@@ -164,7 +169,28 @@ func main() {
 				sc.Setup = func(*sess.World) { vrand.Force("bytes", nonce) }
 			}
 			pushed := false
+			retried, retryConformant := false, false
+			var retryErr error
+			retryPanic := ""
 			sc.AfterConnectFailure = func(w *sess.World) {
+				if followUpNames[fu] == retryName {
+					if w.Auth == nil || !w.Auth.Applied || w.ConnPanic != "" {
+						return
+					}
+					pushed, retried = true, true
+					w.M.Disconnect()
+					steps := len(w.Auth.Steps)
+					w.Auth.Applied = false
+					if pn, pm, fr := vr.Try(func() { retryErr = w.M.CreateConnection() }); pn {
+						retryPanic = pm + " in " + fr
+					}
+					// a retry during which the server saw a complete exchange and had no occasion to inject the fault
+					// again (faults tied to the n-th reply of the server's life) may of course succeed
+					retryConformant = retryPanic == "" && !w.Auth.Applied && len(w.Auth.Steps) == steps+3
+					w.Auth.Applied = true
+					w.M.Disconnect()
+					return
+				}
 				if fu > 0 && len(w.Net.Conns) > 0 && w.Auth != nil {
 					if fr := followUp(fu, w.Auth); fr != nil {
 						c := w.Net.Conns[len(w.Net.Conns)-1]
@@ -193,6 +219,18 @@ func main() {
 			cls := faultClass(f)
 			if fu > 0 {
 				cls += "|then-" + strings.ReplaceAll(followUpNames[fu], " ", "-")
+			}
+			if retried {
+				if retryConformant {
+					run.Count("retries_that_were_a_conformant_exchange", 1)
+					continue
+				}
+				switch {
+				case retryPanic != "":
+					run.Violation("panic|"+cls+"|"+vr.MsgClass(retryPanic), id+": the second CreateConnection panics: "+retryPanic, rep)
+				case retryErr == nil:
+					run.Violation("accepted|"+cls, fmt.Sprintf("%s: the second CreateConnection reports success although the server saw no conformant exchange (server steps %v)", id, w.Auth.Steps), rep)
+				}
 			}
 			switch {
 			case w.ConnPanic != "":
